@@ -3,86 +3,57 @@ package main
 import (
 	"fmt"
 	"go/ast"
+	"go/importer"
 	"go/token"
+	"go/types"
+	"path/filepath"
 	"sort"
 	"strings"
 )
 
-// Write-set facts for the quadtree query path (C19) — a syntactic approximation of aliasing:
-// every assignment / IncDec in the functions reachable from the read-only query methods, with the
-// root of its left-hand side classified as
-//   local    declared in the function (:=, var) or a by-value parameter
-//   visitor  the receiver of a per-call visitor / heap / visit object
-//   tree     the *Quadtree receiver, a *node parameter or anything reached through them
-//   other    anything else (package variable, unknown)
+// Write-set facts for the quadtree query path (C19).
+//
+// Package quadtree is TYPE-CHECKED (go/types, offline: orb's own packages from the parsed files,
+// the standard library from GOROOT source) and a flow-insensitive, field-based points-to analysis
+// (Andersen style, whole package, iterated to a fixpoint) answers for every expression of
+// reference type "which memory may this point to":
+//
+//   V:<fn>.<x>        the local variable / parameter / receiver x of fn        class local
+//   A:<fn>#k:<how>    the k-th allocation site of fn (make, new, composite
+//                     literal, append growth, func literal, variadic slice)    class percall
+//   I:<T.f>@<class>   the field f inside an object of that class               class <class>
+//   TREE              the Quadtree struct, its nodes and everything they hold  class tree
+//   CALLER            buffers / functions supplied by the caller of an
+//                     exported method (per goroutine by the documented contract) class caller
+//   GLOBAL            package-level variables and what they hold               class global
+//   UNKNOWN           results of code outside the package                      class unknown
+//
+// Struct fields of objects outside TREE/CALLER/GLOBAL/UNKNOWN are tracked per (type, field)
+// (every store to T.f in the whole package, in a composite literal or an assignment, flows into
+// the one cell F:T.f); whatever is loaded from TREE is TREE.  Independently of the data flow,
+// every expression of static type *node / *Quadtree is TREE.
+//
+// Emitted for the functions reachable from the documented read-only query methods:
+//   writes     every assignment, ++/--, range assignment, channel send, go statement, and the
+//              DESTINATION argument of copy / append / clear / delete and of every call that leaves
+//              the package with a reference argument (sort.*, …), each with the classes of the memory
+//              the destination may designate, the abstract objects, the root identifier and the
+//              reference fields the path goes through
+//   bindings   how every local / parameter / receiver of reference type (or whose address is
+//              taken) gets its value: one entry per :=, =, var, range, call site, entry point
+//   fieldInits how every reference field of a struct is initialised or assigned (whole package)
+//   callbacks  calls through caller-supplied code (the filter, Pointer.Point)
+// so that the obligation "every write root on a query path is per-call allocated" is a `decide`
+// theorem over these tables (OrbProofs/C19.lean).
 
-// the documented read-only entry points; everything they can reach inside the package (by
-// method / function NAME, an over-approximation) is added by queryReach()
+// the documented read-only entry points
 var queryRoots = []string{
 	"Quadtree.Find", "Quadtree.Matching", "Quadtree.KNearest", "Quadtree.KNearestMatching",
 	"Quadtree.InBound", "Quadtree.InBoundMatching", "Quadtree.Bound",
 }
 
-func queryReach() []string {
-	byName := map[string][]string{} // bare name -> qualified names in package quadtree
-	eachFunc(func(pk *pkgFiles, file string, fd *ast.FuncDecl) {
-		if pk.rel != "quadtree" {
-			return
-		}
-		q := fd.Name.Name
-		if r := recvName(fd); r != "" {
-			q = r + "." + q
-		}
-		byName[fd.Name.Name] = append(byName[fd.Name.Name], q)
-	})
-	seen := map[string]bool{}
-	todo := append([]string(nil), queryRoots...)
-	for len(todo) > 0 {
-		q := todo[len(todo)-1]
-		todo = todo[:len(todo)-1]
-		if seen[q] {
-			continue
-		}
-		seen[q] = true
-		recv, name := "", q
-		if i := strings.Index(q, "."); i >= 0 {
-			recv, name = q[:i], q[i+1:]
-		}
-		_, fd := findFunc("quadtree", recv, name)
-		if fd == nil || fd.Body == nil {
-			continue
-		}
-		ast.Inspect(fd.Body, func(n ast.Node) bool {
-			c, ok := n.(*ast.CallExpr)
-			if !ok {
-				return true
-			}
-			var callee string
-			switch f := c.Fun.(type) {
-			case *ast.Ident:
-				callee = f.Name
-			case *ast.SelectorExpr:
-				if x, ok := f.X.(*ast.Ident); ok && (x.Name == "math" || x.Name == "planar" || x.Name == "orb") {
-					return true
-				}
-				callee = f.Sel.Name
-			}
-			for _, qq := range byName[callee] {
-				// the mutating API is never reached through a name that is only a mutator
-				todo = append(todo, qq)
-			}
-			return true
-		})
-	}
-	out := []string{}
-	for q := range seen {
-		out = append(out, q)
-	}
-	sort.Strings(out)
-	return out
-}
-
-var perCallRecv = map[string]bool{"visit": true, "findVisitor": true, "nearestVisitor": true, "inBoundVisitor": true, "maxHeap": true}
+// the types whose every instance is tree-owned memory
+var treeTypes = map[string]bool{"Quadtree": true, "node": true}
 
 func rootIdent(e ast.Expr) *ast.Ident {
 	for {
@@ -119,224 +90,2160 @@ func typeName(e ast.Expr) (name string, ptr bool) {
 	return "", false
 }
 
-type writeFact struct{ fn, lhs, root string }
+func quoteAll(s []string) []string {
+	o := make([]string, len(s))
+	for i, x := range s {
+		o[i] = fmt.Sprintf("%q", x)
+	}
+	return o
+}
+
+// ---------------------------------------------------------------------------------------------
+// type checking
+
+const orbPath = "github.com/paulmach/orb"
+
+type orbImporter struct {
+	std  types.Importer
+	done map[string]*types.Package
+	errs *[]string
+}
+
+func (m *orbImporter) Import(path string) (*types.Package, error) {
+	if p, ok := m.done[path]; ok {
+		return p, nil
+	}
+	if path == orbPath || strings.HasPrefix(path, orbPath+"/") {
+		rel := strings.TrimPrefix(strings.TrimPrefix(path, orbPath), "/")
+		if rel == "" {
+			rel = "."
+		}
+		rel = filepath.FromSlash(rel)
+		if pk := pkgs[rel]; pk != nil {
+			p, _ := m.check(path, pk, nil)
+			m.done[path] = p
+			return p, nil
+		}
+	}
+	p, err := m.std.Import(path)
+	if err != nil || p == nil {
+		*m.errs = append(*m.errs, fmt.Sprintf("import %s: %v", path, err))
+		p = types.NewPackage(path, filepath.Base(path))
+		p.MarkComplete()
+	}
+	m.done[path] = p
+	return p, nil
+}
+
+func (m *orbImporter) check(path string, pk *pkgFiles, info *types.Info) (*types.Package, error) {
+	names := []string{}
+	for n := range pk.files {
+		names = append(names, n)
+	}
+	sort.Strings(names)
+	var files []*ast.File
+	for _, n := range names {
+		files = append(files, pk.files[n])
+	}
+	report := info != nil // only the analysed package's own errors are facts
+	cfg := types.Config{Importer: m, FakeImportC: true, Error: func(err error) {
+		if report {
+			*m.errs = append(*m.errs, err.Error())
+		}
+	}}
+	return cfg.Check(path, pk.fset, files, info)
+}
+
+// ---------------------------------------------------------------------------------------------
+// abstract objects
+
+const (
+	oTree    = "TREE"
+	oCaller  = "CALLER"
+	oGlobal  = "GLOBAL"
+	oUnknown = "UNKNOWN"
+)
+
+type oset map[string]bool
+
+func isBlob(o string) bool { return o == oTree || o == oCaller || o == oGlobal || o == oUnknown }
+
+func classOf(o string) string {
+	switch {
+	case o == oTree:
+		return "tree"
+	case o == oCaller:
+		return "caller"
+	case o == oGlobal:
+		return "global"
+	case o == oUnknown:
+		return "unknown"
+	case strings.HasPrefix(o, "V:"):
+		return "local"
+	case strings.HasPrefix(o, "A:"):
+		return "percall"
+	case strings.HasPrefix(o, "I:"):
+		return o[strings.LastIndex(o, "@")+1:]
+	}
+	return "unknown"
+}
+
+func union(ss ...oset) oset {
+	var r oset
+	for _, s := range ss {
+		for o := range s {
+			if r == nil {
+				r = oset{}
+			}
+			r[o] = true
+		}
+	}
+	return r
+}
+
+func single(o string) oset { return oset{o: true} }
+
+func sorted(s oset) []string {
+	r := []string{}
+	for o := range s {
+		r = append(r, o)
+	}
+	sort.Strings(r)
+	return r
+}
+
+func classes(s oset) []string {
+	m := map[string]bool{}
+	for o := range s {
+		m[classOf(o)] = true
+	}
+	r := []string{}
+	for c := range m {
+		r = append(r, c)
+	}
+	sort.Strings(r)
+	return r
+}
+
+// ---------------------------------------------------------------------------------------------
+// the analysis
+
+type wFact struct {
+	fn, lhs, kind, rootVar string
+	roots, objs, via       []string
+}
+type bFact struct {
+	fn, v, kind, typ, from, value, how string
+	roots                              []string
+}
+type fiFact struct {
+	fn, field, typ, value, how string // field is "Type.field"
+	roots                      []string
+}
+type cbFact struct{ fn, callee, via string }
+
+type pta struct {
+	pk      *pkgFiles
+	info    *types.Info
+	tpkg    *types.Package
+	cells   map[string]oset
+	changed bool
+	collect bool
+
+	decls   []*ast.FuncDecl
+	fnOf    map[*types.Func]*ast.FuncDecl
+	fnName  map[*ast.FuncDecl]string
+	fieldID map[*types.Var]string
+	varIDs  map[types.Object]string
+	varUsed map[string]bool
+	siteIDs map[token.Pos]string
+	siteTyp map[string]types.Type // allocation site -> type of the allocated object (composite literals)
+	siteCnt map[string]int
+	named   []*types.TypeName
+
+	cur      *ast.FuncDecl
+	resStack []string // result-cell prefix of the function (literal) being walked
+	calls    map[string]map[string]bool
+	addrOfV  map[string]bool // local variables whose address is taken
+
+	writes    []wFact
+	bindings  []bFact
+	fieldInit []fiFact
+	callbacks []cbFact
+	seen      map[string]bool
+}
+
+func (a *pta) add(cell string, s oset) {
+	if cell == "" || len(s) == 0 {
+		return
+	}
+	c := a.cells[cell]
+	if c == nil {
+		c = oset{}
+		a.cells[cell] = c
+	}
+	for o := range s {
+		if !c[o] {
+			c[o] = true
+			a.changed = true
+		}
+	}
+}
+
+func (a *pta) curName() string {
+	if a.cur == nil {
+		return "?"
+	}
+	return a.fnName[a.cur]
+}
+
+func (a *pta) typeOf(e ast.Expr) types.Type {
+	if tv, ok := a.info.Types[e]; ok {
+		return tv.Type
+	}
+	if id, ok := e.(*ast.Ident); ok {
+		if o := a.info.ObjectOf(id); o != nil {
+			return o.Type()
+		}
+	}
+	return nil
+}
+
+func isRef(t types.Type) bool {
+	if t == nil {
+		return true // unknown type: be careful
+	}
+	switch u := t.Underlying().(type) {
+	case *types.Pointer, *types.Slice, *types.Map, *types.Chan, *types.Signature, *types.Interface:
+		return true
+	case *types.Basic:
+		return u.Kind() == types.UnsafePointer || u.Kind() == types.Invalid
+	}
+	return false
+}
+
+// a value that is, or is an array of, references: handled as one points-to set
+func refLike(t types.Type) bool {
+	if isRef(t) {
+		return true
+	}
+	if ar, ok := t.Underlying().(*types.Array); ok {
+		return refLike(ar.Elem())
+	}
+	return false
+}
+
+func hasRef(t types.Type) bool {
+	if refLike(t) {
+		return true
+	}
+	switch u := t.Underlying().(type) {
+	case *types.Struct:
+		for i := 0; i < u.NumFields(); i++ {
+			if hasRef(u.Field(i).Type()) {
+				return true
+			}
+		}
+	case *types.Array:
+		return hasRef(u.Elem())
+	}
+	return false
+}
+
+func deref(t types.Type) types.Type {
+	if t == nil {
+		return nil
+	}
+	if p, ok := t.Underlying().(*types.Pointer); ok {
+		return p.Elem()
+	}
+	return t
+}
+
+func (a *pta) isTreeType(t types.Type) bool {
+	if n, ok := t.(*types.Named); ok {
+		return n.Obj().Pkg() == a.tpkg && treeTypes[n.Obj().Name()]
+	}
+	return false
+}
+
+func (a *pta) typeStr(t types.Type) string {
+	if t == nil {
+		return "?"
+	}
+	return types.TypeString(t, func(p *types.Package) string {
+		if p == a.tpkg {
+			return ""
+		}
+		return p.Name()
+	})
+}
+
+func (a *pta) fid(f *types.Var) string {
+	if s, ok := a.fieldID[f]; ok {
+		return s
+	}
+	pkg := "?"
+	if f.Pkg() != nil {
+		pkg = f.Pkg().Name()
+	}
+	return pkg + ".?." + f.Name()
+}
+
+func (a *pta) fnAt(pos token.Pos) string {
+	for _, d := range a.decls {
+		if d.Pos() <= pos && pos <= d.End() {
+			return a.fnName[d]
+		}
+	}
+	return "?"
+}
+
+func (a *pta) isLocalVar(o types.Object) bool {
+	v, ok := o.(*types.Var)
+	if !ok || v.IsField() {
+		return false
+	}
+	return v.Parent() != a.tpkg.Scope() && (v.Pkg() == a.tpkg || v.Pkg() == nil)
+}
+
+func (a *pta) varID(o types.Object) string {
+	if s, ok := a.varIDs[o]; ok {
+		return s
+	}
+	base := "V:" + a.fnAt(o.Pos()) + "." + o.Name()
+	id := base
+	for n := 2; a.varUsed[id]; n++ {
+		id = fmt.Sprintf("%s#%d", base, n)
+	}
+	a.varUsed[id] = true
+	a.varIDs[o] = id
+	return id
+}
+
+func (a *pta) site(pos token.Pos, how string) string {
+	if s, ok := a.siteIDs[pos]; ok {
+		return s
+	}
+	fn := a.fnAt(pos)
+	a.siteCnt[fn]++
+	s := fmt.Sprintf("A:%s#%d:%s", fn, a.siteCnt[fn], how)
+	a.siteIDs[pos] = s
+	return s
+}
+
+// where the references stored IN object o live
+func contentCell(o string) string {
+	switch {
+	case strings.HasPrefix(o, "V:"):
+		return o
+	case strings.HasPrefix(o, "A:"):
+		return "E:" + o
+	case strings.HasPrefix(o, "I:"):
+		return "F:" + o[2:strings.LastIndex(o, "@")]
+	}
+	return ""
+}
+
+func (a *pta) content(s oset) oset {
+	var r oset
+	for o := range s {
+		if isBlob(o) {
+			r = union(r, single(o))
+		} else {
+			r = union(r, a.cells[contentCell(o)])
+		}
+	}
+	return r
+}
+
+func (a *pta) loadField(bases oset, f *types.Var) oset {
+	var r oset
+	for o := range bases {
+		if isBlob(o) {
+			r = union(r, single(o))
+		} else {
+			r = union(r, a.cells["F:"+a.fid(f)])
+		}
+	}
+	return r
+}
+
+func unparen(e ast.Expr) ast.Expr {
+	for {
+		p, ok := e.(*ast.ParenExpr)
+		if !ok {
+			return e
+		}
+		e = p.X
+	}
+}
+
+// field selection: the objects that contain the selected field, and the field
+func (a *pta) fieldSel(e *ast.SelectorExpr) (bases oset, fld *types.Var, ok bool) {
+	sel := a.info.Selections[e]
+	if sel == nil || sel.Kind() != types.FieldVal {
+		return nil, nil, false
+	}
+	t := sel.Recv()
+	if _, isPtr := t.Underlying().(*types.Pointer); isPtr {
+		bases = a.val(e.X)
+	} else {
+		bases = a.locs(e.X)
+	}
+	t = deref(t)
+	path := sel.Index()
+	for k, idx := range path {
+		st, isStruct := t.Underlying().(*types.Struct)
+		if !isStruct {
+			return single(oUnknown), nil, false
+		}
+		f := st.Field(idx)
+		if k == len(path)-1 {
+			return bases, f, true
+		}
+		// embedded field on the way
+		if _, isPtr := f.Type().Underlying().(*types.Pointer); isPtr {
+			bases = a.loadField(bases, f)
+		}
+		t = deref(f.Type())
+	}
+	return single(oUnknown), nil, false
+}
+
+// the objects that contain the memory designated by the lvalue e
+func (a *pta) locs(e ast.Expr) oset {
+	switch e := e.(type) {
+	case *ast.ParenExpr:
+		return a.locs(e.X)
+	case *ast.Ident:
+		if e.Name == "_" {
+			return nil
+		}
+		o := a.info.ObjectOf(e)
+		if o == nil {
+			return single(oUnknown)
+		}
+		if a.isLocalVar(o) {
+			return single(a.varID(o))
+		}
+		if _, isVar := o.(*types.Var); isVar {
+			return single(oGlobal)
+		}
+		return single(oUnknown)
+	case *ast.SelectorExpr:
+		if bases, _, ok := a.fieldSel(e); ok {
+			return bases
+		}
+		if a.info.Selections[e] == nil { // pkg.Var
+			if _, isVar := a.info.Uses[e.Sel].(*types.Var); isVar {
+				return single(oGlobal)
+			}
+		}
+		a.val(e.X)
+		return single(oUnknown)
+	case *ast.IndexExpr:
+		a.val(e.Index)
+		return a.containers(e.X)
+	case *ast.StarExpr:
+		return a.val(e.X)
+	case *ast.CompositeLit:
+		a.val(e)
+		return single(a.site(e.Pos(), "complit"))
+	}
+	a.val(e)
+	return single(oUnknown)
+}
+
+// the objects holding the elements of the indexed / sliced / ranged expression x
+func (a *pta) containers(x ast.Expr) oset {
+	t := a.typeOf(x)
+	if t == nil {
+		a.val(x)
+		return single(oUnknown)
+	}
+	switch u := t.Underlying().(type) {
+	case *types.Array:
+		return a.locs(x)
+	case *types.Pointer, *types.Slice, *types.Map, *types.Chan:
+		return a.val(x)
+	case *types.Basic:
+		if u.Info()&types.IsString != 0 {
+			a.val(x)
+			return nil
+		}
+	}
+	a.val(x)
+	return single(oUnknown)
+}
+
+// a pointer to the lvalue e
+func (a *pta) addrOf(e ast.Expr) oset {
+	e = unparen(e)
+	switch e := e.(type) {
+	case *ast.Ident:
+		l := a.locs(e)
+		for o := range l {
+			if strings.HasPrefix(o, "V:") {
+				a.addrOfV[o] = true
+			}
+		}
+		return l
+	case *ast.SelectorExpr:
+		if bases, f, ok := a.fieldSel(e); ok {
+			var r oset
+			for o := range bases {
+				if isBlob(o) {
+					r = union(r, single(o))
+				} else {
+					r = union(r, single("I:"+a.fid(f)+"@"+classOf(o)))
+				}
+			}
+			return r
+		}
+	}
+	return a.locs(e)
+}
+
+// the objects a reference-typed expression may point to (for arrays of references: the union
+// over the elements); evaluates every call and literal inside e for its effects
+func (a *pta) val(e ast.Expr) oset {
+	if e == nil {
+		return nil
+	}
+	s := a.val0(e)
+	if t := a.typeOf(e); t != nil {
+		if p, ok := t.Underlying().(*types.Pointer); ok && a.isTreeType(p.Elem()) {
+			s = union(s, single(oTree))
+		}
+		if !refLike(t) {
+			if _, isTuple := t.(*types.Tuple); !isTuple {
+				return nil
+			}
+		}
+	}
+	return s
+}
+
+func (a *pta) val0(e ast.Expr) oset {
+	switch e := e.(type) {
+	case *ast.BasicLit:
+		return nil
+	case *ast.ParenExpr:
+		return a.val(e.X)
+	case *ast.Ident:
+		o := a.info.ObjectOf(e)
+		switch o := o.(type) {
+		case *types.Var:
+			if a.isLocalVar(o) {
+				return a.cells[a.varID(o)]
+			}
+			return single(oGlobal)
+		case *types.Func:
+			a.noteCall(o)
+			return nil
+		case nil:
+			if e.Name == "_" {
+				return nil
+			}
+			return single(oUnknown)
+		}
+		return nil // nil, constants, type names, builtins
+	case *ast.FuncLit:
+		s := a.site(e.Pos(), "funclit")
+		// parameters of a function literal: their arguments are not tracked
+		if e.Type.Params != nil {
+			for _, f := range e.Type.Params.List {
+				for _, n := range f.Names {
+					if o := a.info.Defs[n]; o != nil && refLike(o.Type()) {
+						a.add(a.varID(o), single(oUnknown))
+					}
+				}
+			}
+		}
+		a.resStack = append(a.resStack, "R:"+s)
+		a.stmt(e.Body)
+		a.resStack = a.resStack[:len(a.resStack)-1]
+		return single(s)
+	case *ast.CompositeLit:
+		return a.compositeLit(e)
+	case *ast.UnaryExpr:
+		switch e.Op {
+		case token.AND:
+			if cl, ok := unparen(e.X).(*ast.CompositeLit); ok {
+				a.val(cl)
+				s := a.site(cl.Pos(), "complit")
+				if t := a.typeOf(cl); t != nil {
+					a.siteTyp[s] = t
+				}
+				return single(s)
+			}
+			return a.addrOf(e.X)
+		case token.ARROW: // a receive changes the channel
+			ch := a.val(e.X)
+			a.recordWrite("recv", e.X, "<-"+a.show(e.X), ch)
+			return a.content(ch)
+		}
+		a.val(e.X)
+		return nil
+	case *ast.BinaryExpr:
+		a.val(e.X)
+		a.val(e.Y)
+		return nil
+	case *ast.StarExpr:
+		return a.content(a.val(e.X))
+	case *ast.SelectorExpr:
+		if bases, f, ok := a.fieldSel(e); ok {
+			return a.loadField(bases, f)
+		}
+		sel := a.info.Selections[e]
+		if sel == nil { // qualified identifier
+			if _, isVar := a.info.Uses[e.Sel].(*types.Var); isVar {
+				return single(oGlobal)
+			}
+			return nil // a function or constant of another package
+		}
+		// method value: the closure holds the receiver
+		if m, ok := sel.Obj().(*types.Func); ok {
+			a.noteCall(m)
+		}
+		if isRef(a.typeOf(e.X)) {
+			return a.val(e.X)
+		}
+		return a.addrOf(e.X)
+	case *ast.IndexExpr:
+		a.val(e.Index)
+		t := a.typeOf(e.X)
+		if t != nil {
+			if _, isArr := t.Underlying().(*types.Array); isArr {
+				return a.val(e.X)
+			}
+			if _, isSig := t.Underlying().(*types.Signature); isSig { // generic instantiation
+				return a.val(e.X)
+			}
+		}
+		return a.content(a.containers(e.X))
+	case *ast.SliceExpr:
+		a.val(e.Low)
+		a.val(e.High)
+		a.val(e.Max)
+		t := a.typeOf(e.X)
+		if t != nil {
+			if _, isArr := t.Underlying().(*types.Array); isArr {
+				return a.addrOf(e.X)
+			}
+		}
+		return a.val(e.X)
+	case *ast.TypeAssertExpr:
+		return a.val(e.X)
+	case *ast.CallExpr:
+		r := a.call(e)
+		if len(r) > 0 {
+			return r[0]
+		}
+		return nil
+	case *ast.KeyValueExpr:
+		return union(a.val(e.Key), a.val(e.Value))
+	}
+	return nil
+}
+
+func (a *pta) noteCall(f *types.Func) {
+	if d, ok := a.fnOf[f]; ok && a.cur != nil {
+		m := a.calls[a.fnName[a.cur]]
+		if m == nil {
+			m = map[string]bool{}
+			a.calls[a.fnName[a.cur]] = m
+		}
+		m[a.fnName[d]] = true
+	}
+}
+
+// src location objects of a struct-valued expression (for copies of structs holding references)
+func (a *pta) structSources(e ast.Expr) oset {
+	switch x := unparen(e).(type) {
+	case *ast.Ident, *ast.SelectorExpr, *ast.IndexExpr, *ast.StarExpr:
+		return a.locs(x)
+	case *ast.CompositeLit:
+		a.val(x)
+		return nil
+	case *ast.CallExpr:
+		a.val(x)
+		if a.localCallee(x) {
+			return nil // the callee's return statements have done the copy
+		}
+		return single(oUnknown)
+	}
+	a.val(e)
+	return single(oUnknown)
+}
+
+// the reference fields of t (deep, through nested structs and arrays) may now hold blob b
+func (a *pta) taint(t types.Type, b oset, depth int) {
+	if depth > 8 || len(b) == 0 {
+		return
+	}
+	switch u := t.Underlying().(type) {
+	case *types.Struct:
+		for i := 0; i < u.NumFields(); i++ {
+			f := u.Field(i)
+			if refLike(f.Type()) {
+				a.add("F:"+a.fid(f), b)
+			} else if hasRef(f.Type()) {
+				a.taint(f.Type(), b, depth+1)
+			}
+		}
+	case *types.Array:
+		a.taint(u.Elem(), b, depth+1)
+	}
+}
+
+// value of type t, given by expression rhs, is stored into cell dst ("" when the destination is a
+// struct field / element whose own fields are tracked per type)
+func (a *pta) flow(dst string, t types.Type, rhs ast.Expr) oset {
+	if t == nil || refLike(t) {
+		v := a.val(rhs)
+		a.add(dst, v)
+		return v
+	}
+	if hasRef(t) {
+		src := a.structSources(rhs)
+		var blobs oset
+		for o := range src {
+			if isBlob(o) {
+				blobs = union(blobs, single(o))
+			}
+		}
+		a.taint(t, blobs, 0)
+		return src // where the copied struct (which holds references) comes from
+	}
+	a.val(rhs)
+	return nil
+}
+
+func (a *pta) compositeLit(e *ast.CompositeLit) oset {
+	t := a.typeOf(e)
+	if t == nil {
+		for _, el := range e.Elts {
+			a.val(el)
+		}
+		return single(oUnknown)
+	}
+	switch u := t.Underlying().(type) {
+	case *types.Struct:
+		for i, el := range e.Elts {
+			var f *types.Var
+			var ve ast.Expr
+			if kv, ok := el.(*ast.KeyValueExpr); ok {
+				ve = kv.Value
+				if id, ok := kv.Key.(*ast.Ident); ok {
+					for k := 0; k < u.NumFields(); k++ {
+						if u.Field(k).Name() == id.Name {
+							f = u.Field(k)
+						}
+					}
+				}
+			} else if i < u.NumFields() {
+				f, ve = u.Field(i), el
+			}
+			if f == nil {
+				a.val(ve)
+				continue
+			}
+			cell := ""
+			if refLike(f.Type()) {
+				cell = "F:" + a.fid(f)
+			}
+			v := a.flow(cell, f.Type(), ve)
+			if a.collect && refLike(f.Type()) {
+				a.fieldInit = append(a.fieldInit, fiFact{a.curName(), a.fid(f), a.typeStr(f.Type()), a.show(ve), a.howOf(ve), classes(v)})
+			}
+		}
+		return nil
+	case *types.Slice, *types.Map:
+		s := a.site(e.Pos(), "complit")
+		var et types.Type
+		if sl, ok := u.(*types.Slice); ok {
+			et = sl.Elem()
+		} else {
+			et = u.(*types.Map).Elem()
+		}
+		for _, el := range e.Elts {
+			ve := el
+			if kv, ok := el.(*ast.KeyValueExpr); ok {
+				a.add("E:"+s, a.val(kv.Key))
+				ve = kv.Value
+			}
+			a.flowInto(single(s), et, ve)
+		}
+		return single(s)
+	case *types.Array:
+		var r oset
+		for _, el := range e.Elts {
+			ve := el
+			if kv, ok := el.(*ast.KeyValueExpr); ok {
+				ve = kv.Value
+			}
+			if refLike(u.Elem()) {
+				r = union(r, a.val(ve))
+			} else {
+				a.flow("", u.Elem(), ve)
+			}
+		}
+		return r
+	}
+	for _, el := range e.Elts {
+		a.val(el)
+	}
+	return nil
+}
+
+// an element of type t given by rhs is stored into the objects cs
+func (a *pta) flowInto(cs oset, t types.Type, rhs ast.Expr) {
+	if t == nil || refLike(t) {
+		v := a.val(rhs)
+		for o := range cs {
+			a.add(contentCell(o), v)
+		}
+		return
+	}
+	a.flow("", t, rhs)
+}
+
+func (a *pta) howOf(e ast.Expr) string {
+	switch x := unparen(e).(type) {
+	case nil:
+		return "zero"
+	case *ast.BasicLit:
+		return "literal"
+	case *ast.Ident:
+		switch o := a.info.ObjectOf(x).(type) {
+		case *types.Nil:
+			return "nil"
+		case *types.Var:
+			if !a.isLocalVar(o) {
+				return "global"
+			}
+			if a.cur != nil {
+				if a.cur.Recv != nil {
+					for _, f := range a.cur.Recv.List {
+						for _, n := range f.Names {
+							if a.info.Defs[n] == o {
+								return "receiver"
+							}
+						}
+					}
+				}
+				for _, f := range a.cur.Type.Params.List {
+					for _, n := range f.Names {
+						if a.info.Defs[n] == o {
+							return "param"
+						}
+					}
+				}
+			}
+			return "local"
+		case *types.Func:
+			return "func"
+		case *types.Const:
+			return "const"
+		}
+		return "ident"
+	case *ast.CompositeLit:
+		return "complit"
+	case *ast.FuncLit:
+		return "funclit"
+	case *ast.UnaryExpr:
+		if x.Op == token.AND {
+			if _, ok := unparen(x.X).(*ast.CompositeLit); ok {
+				return "complit"
+			}
+			if id, ok := unparen(x.X).(*ast.Ident); ok {
+				if o := a.info.ObjectOf(id); o != nil && a.isLocalVar(o) {
+					return "addr-of-local"
+				}
+				return "addr-of-global"
+			}
+			return "addr-of-" + a.howOf(x.X)
+		}
+		if x.Op == token.ARROW {
+			return "receive"
+		}
+		return "expr"
+	case *ast.SelectorExpr:
+		if sel := a.info.Selections[x]; sel != nil && sel.Kind() == types.FieldVal {
+			return "field"
+		}
+		return "selector"
+	case *ast.IndexExpr:
+		return "element"
+	case *ast.StarExpr:
+		return "deref"
+	case *ast.SliceExpr:
+		return "slice-of-" + a.howOf(x.X)
+	case *ast.TypeAssertExpr:
+		return "assert-" + a.howOf(x.X)
+	case *ast.CallExpr:
+		if tv, ok := a.info.Types[x.Fun]; ok && tv.IsType() {
+			if len(x.Args) == 1 {
+				return "convert-" + a.howOf(x.Args[0])
+			}
+			return "convert"
+		}
+		if id, ok := unparen(x.Fun).(*ast.Ident); ok {
+			if _, isB := a.info.Uses[id].(*types.Builtin); isB {
+				return id.Name
+			}
+		}
+		return "call:" + a.show(x.Fun)
+	}
+	return "expr"
+}
+
+func (a *pta) localCallee(e *ast.CallExpr) bool {
+	switch f := unparen(e.Fun).(type) {
+	case *ast.Ident:
+		if fn, ok := a.info.Uses[f].(*types.Func); ok {
+			_, ok := a.fnOf[fn]
+			return ok
+		}
+	case *ast.SelectorExpr:
+		if sel := a.info.Selections[f]; sel != nil && sel.Kind() == types.MethodVal {
+			if fn, ok := sel.Obj().(*types.Func); ok {
+				if _, ok := a.fnOf[fn]; ok {
+					return true
+				}
+				if types.IsInterface(sel.Recv()) && fn.Pkg() == a.tpkg {
+					return true
+				}
+			}
+		}
+	}
+	return false
+}
+
+func (a *pta) results(prefix string, n int) []oset {
+	r := make([]oset, n)
+	for i := range r {
+		r[i] = a.cells[fmt.Sprintf("%s#%d", prefix, i)]
+	}
+	return r
+}
+
+// the methods named `name` of the package's concrete types that implement iface
+func (a *pta) implementers(iface *types.Interface, name string) []*types.Func {
+	var out []*types.Func
+	seen := map[*types.Func]bool{}
+	for _, tn := range a.named {
+		if types.IsInterface(tn.Type()) {
+			continue
+		}
+		for _, t := range []types.Type{tn.Type(), types.NewPointer(tn.Type())} {
+			if !types.Implements(t, iface) {
+				continue
+			}
+			o, _, _ := types.LookupFieldOrMethod(t, true, a.tpkg, name)
+			if f, ok := o.(*types.Func); ok && !seen[f] {
+				seen[f] = true
+				out = append(out, f)
+			}
+		}
+	}
+	return out
+}
+
+func (a *pta) recordBinding(fn, v, kind string, t types.Type, from, value, how string, roots []string) {
+	if !a.collect {
+		return
+	}
+	b := bFact{fn, v, kind, a.typeStr(t), from, value, how, roots}
+	key := fmt.Sprint(b)
+	if a.seen[key] {
+		return
+	}
+	a.seen[key] = true
+	a.bindings = append(a.bindings, b)
+}
+
+// bind the receiver and the arguments of a call to a function of this package
+func (a *pta) bind(fn *types.Func, recvExpr ast.Expr, recvIsIface bool, e *ast.CallExpr) []oset {
+	a.noteCall(fn)
+	d := a.fnOf[fn]
+	name := a.fnName[d]
+	sig := fn.Type().(*types.Signature)
+	if rv := sig.Recv(); rv != nil && recvExpr != nil {
+		var v oset
+		rt := rv.Type()
+		_, recvPtr := rt.Underlying().(*types.Pointer)
+		et := a.typeOf(recvExpr)
+		switch {
+		case recvIsIface:
+			// the dynamic type selects the method: an object allocated as a different type never gets here
+			for o := range a.val(recvExpr) {
+				if st, ok := a.siteTyp[o]; ok && !types.Identical(st, deref(rt)) {
+					continue
+				}
+				v = union(v, single(o))
+			}
+		case recvPtr:
+			if et != nil {
+				if _, isPtr := et.Underlying().(*types.Pointer); isPtr {
+					v = a.val(recvExpr)
+				} else {
+					v = a.addrOf(recvExpr)
+				}
+			}
+		default: // value receiver
+			if et != nil {
+				if _, isPtr := et.Underlying().(*types.Pointer); isPtr && refLike(rt) {
+					v = a.content(a.val(recvExpr))
+				} else if refLike(rt) {
+					v = a.val(recvExpr)
+				} else if hasRef(rt) {
+					a.flow("", rt, recvExpr)
+				} else {
+					a.val(recvExpr)
+				}
+			}
+		}
+		if rv.Name() != "" && rv.Name() != "_" {
+			if refLike(rt) {
+				a.add(a.varID(rv), v)
+			}
+			if refLike(rt) {
+				a.recordBinding(name, rv.Name(), "receiver", rt, a.curName(), a.show(recvExpr), "call-site", classes(v))
+			}
+		}
+	}
+	ps := sig.Params()
+	for i, arg := range e.Args {
+		var p *types.Var
+		variadicElem := false
+		switch {
+		case sig.Variadic() && i >= ps.Len()-1:
+			p = ps.At(ps.Len() - 1)
+			variadicElem = !e.Ellipsis.IsValid()
+		case i < ps.Len():
+			p = ps.At(i)
+		}
+		if p == nil {
+			a.val(arg)
+			continue
+		}
+		pid := ""
+		if p.Name() != "" && p.Name() != "_" {
+			pid = a.varID(p)
+		}
+		if variadicElem {
+			s := a.site(e.Rparen, "variadic")
+			a.add(pid, single(s))
+			a.flowInto(single(s), p.Type().(*types.Slice).Elem(), arg)
+			continue
+		}
+		cell := ""
+		if refLike(p.Type()) {
+			cell = pid
+		}
+		v := a.flow(cell, p.Type(), arg)
+		if refLike(p.Type()) && pid != "" {
+			a.recordBinding(name, p.Name(), "param", p.Type(), a.curName(), a.show(arg), "call-site", classes(v))
+		}
+	}
+	rs := sig.Results()
+	return a.results("R:"+name, rs.Len())
+}
+
+// classes of the targets of a write in the current function: a variable of ANOTHER function, reached
+// through a pointer, is memory of that (calling) invocation: percall
+func (a *pta) classesHere(s oset) []string {
+	m := map[string]bool{}
+	for o := range s {
+		c := classOf(o)
+		if c == "local" && !strings.HasPrefix(o, "V:"+a.curName()+".") {
+			c = "percall"
+		}
+		m[c] = true
+	}
+	r := []string{}
+	for c := range m {
+		r = append(r, c)
+	}
+	sort.Strings(r)
+	return r
+}
+
+func (a *pta) recordWrite(kind string, dst ast.Expr, label string, targets oset) {
+	if !a.collect {
+		return
+	}
+	rv := ""
+	if id := a.rootOf(dst); id != nil {
+		rv = id.Name
+	}
+	a.writes = append(a.writes, wFact{a.curName(), label, kind, rv, a.classesHere(targets), sorted(targets), a.via(dst, kind != "assign" && kind != "incdec" && kind != "range")})
+}
+
+// the identifier a destination expression starts from, looking through conversions, type
+// assertions and & as well
+func (a *pta) rootOf(e ast.Expr) *ast.Ident {
+	for {
+		switch t := e.(type) {
+		case *ast.Ident:
+			return t
+		case *ast.SelectorExpr:
+			e = t.X
+		case *ast.IndexExpr:
+			e = t.X
+		case *ast.StarExpr:
+			e = t.X
+		case *ast.ParenExpr:
+			e = t.X
+		case *ast.SliceExpr:
+			e = t.X
+		case *ast.TypeAssertExpr:
+			e = t.X
+		case *ast.UnaryExpr:
+			if t.Op != token.AND {
+				return nil
+			}
+			e = t.X
+		case *ast.CallExpr:
+			if tv, ok := a.info.Types[t.Fun]; ok && tv.IsType() && len(t.Args) == 1 {
+				e = t.Args[0]
+			} else {
+				return nil
+			}
+		default:
+			return nil
+		}
+	}
+}
+
+// the reference-typed struct fields whose value is dereferenced on the way to the written memory
+func (a *pta) via(e ast.Expr, whole bool) []string {
+	out := []string{}
+	var walk func(e ast.Expr, used bool)
+	walk = func(e ast.Expr, used bool) {
+		switch x := e.(type) {
+		case *ast.ParenExpr:
+			walk(x.X, used)
+		case *ast.SelectorExpr:
+			if sel := a.info.Selections[x]; sel != nil && sel.Kind() == types.FieldVal {
+				if f, ok := sel.Obj().(*types.Var); ok && used && refLike(f.Type()) {
+					out = append(out, a.fid(f))
+				}
+				walk(x.X, true)
+			}
+		case *ast.IndexExpr:
+			walk(x.X, true)
+		case *ast.SliceExpr:
+			walk(x.X, true)
+		case *ast.StarExpr:
+			walk(x.X, true)
+		case *ast.TypeAssertExpr:
+			walk(x.X, true)
+		case *ast.UnaryExpr:
+			if x.Op == token.AND {
+				walk(x.X, false)
+			}
+		case *ast.CallExpr: // a conversion
+			if tv, ok := a.info.Types[x.Fun]; ok && tv.IsType() && len(x.Args) == 1 {
+				walk(x.Args[0], used)
+			}
+		}
+	}
+	walk(e, whole)
+	sort.Strings(out)
+	return out
+}
+
+func (a *pta) call(e *ast.CallExpr) []oset {
+	fun := unparen(e.Fun)
+	// conversion
+	if tv, ok := a.info.Types[fun]; ok && tv.IsType() {
+		var v oset
+		for _, arg := range e.Args {
+			v = union(v, a.val(arg))
+		}
+		return []oset{v}
+	}
+	nres := 1
+	if t := a.typeOf(e); t != nil {
+		if tu, ok := t.(*types.Tuple); ok {
+			nres = tu.Len()
+		}
+	}
+	unknownRes := func() []oset {
+		r := make([]oset, nres)
+		if t := a.typeOf(e); t != nil {
+			if tu, ok := t.(*types.Tuple); ok {
+				for i := 0; i < tu.Len(); i++ {
+					if refLike(tu.At(i).Type()) {
+						r[i] = single(oUnknown)
+					} else if hasRef(tu.At(i).Type()) {
+						a.taint(tu.At(i).Type(), single(oUnknown), 0)
+					}
+				}
+			} else if refLike(t) {
+				r[0] = single(oUnknown)
+			} else if hasRef(t) {
+				a.taint(t, single(oUnknown), 0)
+			}
+		}
+		return r
+	}
+	// code outside the package gets reference arguments: each may be written through
+	external := func(name string, recv ast.Expr) []oset {
+		all := []ast.Expr{}
+		if recv != nil {
+			all = append(all, recv)
+		}
+		all = append(all, e.Args...)
+		for k, arg := range all {
+			t := a.typeOf(arg)
+			var v oset
+			a.escapeMethods(t, arg)
+			if k == 0 && recv != nil && t != nil && !isRef(t) {
+				// method of a concrete type outside the package: a pointer receiver sees the variable
+				if sel := a.info.Selections[fun.(*ast.SelectorExpr)]; sel != nil {
+					if m, ok := sel.Obj().(*types.Func); ok {
+						if _, isPtr := m.Type().(*types.Signature).Recv().Type().Underlying().(*types.Pointer); isPtr {
+							v = a.addrOf(arg)
+							a.recordWrite("extcall:"+name, arg, a.show(arg), v)
+							continue
+						}
+					}
+				}
+			}
+			if t == nil || refLike(t) {
+				v = a.val(arg)
+				if _, isLit := unparen(arg).(*ast.FuncLit); isLit {
+					continue // a closure: its body has been analysed in place
+				}
+				if id, ok := unparen(arg).(*ast.Ident); ok {
+					if _, isNil := a.info.ObjectOf(id).(*types.Nil); isNil {
+						continue
+					}
+				}
+				a.recordWrite("extcall:"+name, arg, a.show(arg), v)
+			} else if hasRef(t) {
+				a.structSources(arg)
+				a.recordWrite("extcall:"+name, arg, a.show(arg), single(oUnknown))
+			} else {
+				a.val(arg)
+			}
+		}
+		return unknownRes()
+	}
+	callback := func(what string) []oset {
+		for _, arg := range e.Args {
+			a.val(arg)
+		}
+		if a.collect {
+			a.callbacks = append(a.callbacks, cbFact{a.curName(), a.show(fun), what})
+		}
+		return unknownRes()
+	}
+
+	switch f := fun.(type) {
+	case *ast.Ident:
+		switch o := a.info.Uses[f].(type) {
+		case *types.Builtin:
+			return a.builtin(o.Name(), e)
+		case *types.Func:
+			if _, ok := a.fnOf[o]; ok {
+				return a.bind(o, nil, false, e)
+			}
+			return external(f.Name, nil)
+		}
+		// a function value held in a variable
+		a.val(f)
+		return callback("func-value")
+	case *ast.SelectorExpr:
+		sel := a.info.Selections[f]
+		if sel == nil { // pkg.Func or pkg.Var(...)
+			if _, ok := a.info.Uses[f.Sel].(*types.Func); ok {
+				return external(a.show(f), nil)
+			}
+			return callback("func-value")
+		}
+		if sel.Kind() == types.FieldVal { // a function stored in a field
+			a.val(f)
+			return callback("func-field")
+		}
+		m, _ := sel.Obj().(*types.Func)
+		if m == nil {
+			a.val(f.X)
+			return callback("unknown")
+		}
+		if types.IsInterface(sel.Recv()) {
+			if m.Pkg() == a.tpkg {
+				iface, _ := sel.Recv().Underlying().(*types.Interface)
+				var res []oset
+				for _, impl := range a.implementers(iface, m.Name()) {
+					r := a.bind(impl, f.X, true, e)
+					if res == nil {
+						res = make([]oset, len(r))
+					}
+					for i := range r {
+						if i < len(res) {
+							res[i] = union(res[i], r[i])
+						}
+					}
+				}
+				if res == nil {
+					a.val(f.X)
+					return unknownRes()
+				}
+				return res
+			}
+			a.val(f.X)
+			return callback("interface-method")
+		}
+		if _, ok := a.fnOf[m]; ok {
+			if len(sel.Index()) > 1 { // promoted through an embedded field: not tracked
+				if rv := m.Type().(*types.Signature).Recv(); rv != nil && refLike(rv.Type()) {
+					a.add(a.varID(rv), single(oUnknown))
+				}
+			}
+			return a.bind(m, f.X, false, e)
+		}
+		return external(a.show(f), f.X)
+	case *ast.FuncLit:
+		a.val(f)
+		for _, arg := range e.Args {
+			a.val(arg)
+		}
+		return a.results("R:"+a.site(f.Pos(), "funclit"), nres)
+	}
+	a.val(fun)
+	return callback("computed")
+}
+
+// a value of a type of this package handed to code outside the package (sort.Sort, heap.Push, …):
+// that code can call its methods, so they are on the query path, with this value as receiver
+func (a *pta) escapeMethods(t types.Type, arg ast.Expr) {
+	if t == nil {
+		return
+	}
+	n, ok := deref(t).(*types.Named)
+	if !ok || n.Obj().Pkg() != a.tpkg {
+		return
+	}
+	var recv oset
+	for _, rt := range []types.Type{n, types.NewPointer(n)} {
+		ms := types.NewMethodSet(rt)
+		for i := 0; i < ms.Len(); i++ {
+			f, ok := ms.At(i).Obj().(*types.Func)
+			if !ok {
+				continue
+			}
+			if _, ok := a.fnOf[f]; !ok {
+				continue
+			}
+			a.noteCall(f)
+			rv := f.Type().(*types.Signature).Recv()
+			if rv == nil || rv.Name() == "" || rv.Name() == "_" || !refLike(rv.Type()) {
+				continue
+			}
+			if recv == nil {
+				c := a.collect
+				a.collect = false
+				if isRef(t) {
+					recv = a.val(arg)
+				} else {
+					recv = a.addrOf(arg)
+				}
+				a.collect = c
+			}
+			if _, isPtr := rv.Type().Underlying().(*types.Pointer); isPtr == isRefPtr(t) || !isPtr {
+				a.add(a.varID(rv), recv)
+			} else {
+				a.add(a.varID(rv), union(recv, single(oUnknown)))
+			}
+			// parameters of reference type come from the outside code
+			ps := f.Type().(*types.Signature).Params()
+			for k := 0; k < ps.Len(); k++ {
+				if p := ps.At(k); p.Name() != "" && p.Name() != "_" && refLike(p.Type()) {
+					a.add(a.varID(p), single(oUnknown))
+				}
+			}
+		}
+	}
+}
+
+func isRefPtr(t types.Type) bool {
+	_, ok := t.Underlying().(*types.Pointer)
+	return ok
+}
+
+func (a *pta) builtin(name string, e *ast.CallExpr) []oset {
+	switch name {
+	case "make", "new":
+		for _, arg := range e.Args[1:] {
+			a.val(arg)
+		}
+		return []oset{single(a.site(e.Pos(), name))}
+	case "append":
+		if len(e.Args) == 0 {
+			return []oset{nil}
+		}
+		sv := a.val(e.Args[0])
+		grown := single(a.site(e.Pos(), "append"))
+		res := union(sv, grown)
+		var et types.Type
+		if t := a.typeOf(e.Args[0]); t != nil {
+			if sl, ok := t.Underlying().(*types.Slice); ok {
+				et = sl.Elem()
+			}
+		}
+		for i, arg := range e.Args[1:] {
+			if e.Ellipsis.IsValid() && i == len(e.Args)-2 {
+				c := a.content(a.val(arg))
+				if et == nil || refLike(et) {
+					for o := range res {
+						a.add(contentCell(o), c)
+					}
+				}
+				continue
+			}
+			a.flowInto(res, et, arg)
+		}
+		a.recordWrite("append", e.Args[0], a.show(e.Args[0]), res)
+		return []oset{res}
+	case "copy":
+		if len(e.Args) == 2 {
+			dv := a.val(e.Args[0])
+			c := a.content(a.val(e.Args[1]))
+			if t := a.typeOf(e.Args[0]); t != nil {
+				if sl, ok := t.Underlying().(*types.Slice); ok && refLike(sl.Elem()) {
+					for o := range dv {
+						a.add(contentCell(o), c)
+					}
+				}
+			}
+			a.recordWrite("copy", e.Args[0], a.show(e.Args[0]), dv)
+		}
+		return []oset{nil}
+	case "clear", "delete", "close":
+		if len(e.Args) > 0 {
+			dv := a.val(e.Args[0])
+			for _, arg := range e.Args[1:] {
+				a.val(arg)
+			}
+			a.recordWrite(name, e.Args[0], a.show(e.Args[0]), dv)
+		}
+		return []oset{nil}
+	}
+	for _, arg := range e.Args {
+		a.val(arg)
+	}
+	if name == "recover" {
+		return []oset{single(oUnknown)}
+	}
+	return []oset{nil}
+}
+
+// store the value of rhs (or the given set, when rhs is nil) into the lvalue lhs
+func (a *pta) assign(lhs ast.Expr, rhs ast.Expr, given oset, define bool) {
+	lhs = unparen(lhs)
+	if id, ok := lhs.(*ast.Ident); ok && id.Name == "_" {
+		a.val(rhs)
+		return
+	}
+	t := a.typeOf(lhs)
+	var v oset
+	evalRHS := func(cell string) {
+		if rhs != nil {
+			v = a.flow(cell, t, rhs)
+		} else {
+			v = given
+			if t == nil || refLike(t) {
+				a.add(cell, v)
+			}
+		}
+	}
+	switch l := lhs.(type) {
+	case *ast.Ident:
+		o := a.info.ObjectOf(l)
+		cell := ""
+		if o != nil && a.isLocalVar(o) && (t == nil || refLike(t)) {
+			cell = a.varID(o)
+		}
+		evalRHS(cell)
+		if t != nil && !refLike(t) && !hasRef(t) {
+			v = nil
+		}
+		if o != nil && a.isLocalVar(o) && a.collect && (refLike(t) || hasRef(t) || a.addrOfV[a.varID(o)]) {
+			value, how := "(tuple)", "tuple"
+			if rhs != nil {
+				value, how = a.show(rhs), a.howOf(rhs)
+			}
+			kind := "assign"
+			if define && a.info.Defs[l] != nil {
+				kind = "define"
+			}
+			a.recordBinding(a.curName(), l.Name, kind, t, a.curName(), value, how, classes(v))
+		}
+	case *ast.SelectorExpr:
+		if _, f, ok := a.fieldSel(l); ok {
+			cell := ""
+			if refLike(f.Type()) {
+				cell = "F:" + a.fid(f)
+			}
+			evalRHS(cell)
+			if a.collect && refLike(f.Type()) {
+				value, how := "(tuple)", "tuple"
+				if rhs != nil {
+					value, how = a.show(rhs), a.howOf(rhs)
+				}
+				a.fieldInit = append(a.fieldInit, fiFact{a.curName(), a.fid(f), a.typeStr(f.Type()), value, "assign:" + how, classes(v)})
+			}
+		} else {
+			evalRHS("")
+		}
+	default: // element, deref
+		cs := a.locs(lhs)
+		if l, ok := lhs.(*ast.IndexExpr); ok {
+			// an element of an array field / array variable
+			if xt := a.typeOf(l.X); xt != nil {
+				if _, isArr := xt.Underlying().(*types.Array); isArr && refLike(xt) {
+					a.assignArrayElem(l.X, rhs, given, t)
+					return
+				}
+			}
+		}
+		if rhs != nil {
+			if t == nil || refLike(t) {
+				v = a.val(rhs)
+			} else {
+				a.flow("", t, rhs)
+			}
+		} else {
+			v = given
+		}
+		if t == nil || refLike(t) {
+			for o := range cs {
+				a.add(contentCell(o), v)
+			}
+		}
+	}
+}
+
+// arr[i] = rhs where arr is an array of references: the array expression's own cell grows
+func (a *pta) assignArrayElem(arr ast.Expr, rhs ast.Expr, given oset, t types.Type) {
+	v := given
+	if rhs != nil {
+		v = a.val(rhs)
+	}
+	switch x := unparen(arr).(type) {
+	case *ast.Ident:
+		if o := a.info.ObjectOf(x); o != nil && a.isLocalVar(o) {
+			a.add(a.varID(o), v)
+		}
+	case *ast.SelectorExpr:
+		if _, f, ok := a.fieldSel(x); ok {
+			a.add("F:"+a.fid(f), v)
+			if a.collect {
+				value, how := "(tuple)", "tuple"
+				if rhs != nil {
+					value, how = a.show(rhs), a.howOf(rhs)
+				}
+				a.fieldInit = append(a.fieldInit, fiFact{a.curName(), a.fid(f), a.typeStr(f.Type()), value, "assign-element:" + how, classes(v)})
+			}
+		}
+	default:
+		for o := range a.locs(arr) {
+			a.add(contentCell(o), v)
+		}
+	}
+}
+
+func (a *pta) stmt(s ast.Stmt) {
+	switch s := s.(type) {
+	case nil:
+	case *ast.BlockStmt:
+		if s == nil {
+			return
+		}
+		for _, x := range s.List {
+			a.stmt(x)
+		}
+	case *ast.ExprStmt:
+		a.val(s.X)
+	case *ast.AssignStmt:
+		define := s.Tok == token.DEFINE
+		if len(s.Lhs) == len(s.Rhs) {
+			for i := range s.Lhs {
+				a.assign(s.Lhs[i], s.Rhs[i], nil, define)
+			}
+		} else if len(s.Rhs) == 1 {
+			var rs []oset
+			switch r := unparen(s.Rhs[0]).(type) {
+			case *ast.CallExpr:
+				rs = a.call(r)
+			default: // v, ok := x.(T) | m[k] | <-ch
+				rs = []oset{a.val(s.Rhs[0])}
+			}
+			for i, l := range s.Lhs {
+				var g oset
+				if i < len(rs) {
+					g = rs[i]
+				}
+				a.assign(l, nil, g, define)
+			}
+		}
+		for _, l := range s.Lhs {
+			if id, ok := unparen(l).(*ast.Ident); ok && (id.Name == "_" || (define && a.info.Defs[id] != nil)) {
+				continue // a new variable is not a write to existing memory
+			}
+			a.recordWrite("assign", l, a.show(l), a.locsQuiet(l))
+		}
+	case *ast.IncDecStmt:
+		a.recordWrite("incdec", s.X, a.show(s.X), a.locsQuiet(s.X))
+	case *ast.SendStmt:
+		ch := a.val(s.Chan)
+		if t := a.typeOf(s.Value); t == nil || refLike(t) {
+			v := a.val(s.Value)
+			for o := range ch {
+				a.add(contentCell(o), v)
+			}
+		} else {
+			a.flow("", t, s.Value)
+		}
+		a.recordWrite("send", s.Chan, a.show(s.Chan)+" <-", ch)
+	case *ast.GoStmt:
+		a.val(s.Call)
+		a.recordWrite("go", s.Call.Fun, "go "+a.show(s.Call.Fun), nil)
+	case *ast.DeferStmt:
+		a.val(s.Call)
+	case *ast.ReturnStmt:
+		prefix := a.resStack[len(a.resStack)-1]
+		if len(s.Results) == 1 {
+			if c, ok := unparen(s.Results[0]).(*ast.CallExpr); ok {
+				if t, ok := a.typeOf(c).(*types.Tuple); ok && t.Len() > 1 {
+					for i, r := range a.call(c) {
+						a.add(fmt.Sprintf("%s#%d", prefix, i), r)
+					}
+					return
+				}
+			}
+		}
+		for i, r := range s.Results {
+			t := a.typeOf(r)
+			cell := ""
+			if t == nil || refLike(t) {
+				cell = fmt.Sprintf("%s#%d", prefix, i)
+			}
+			a.flow(cell, t, r)
+		}
+		if len(s.Results) == 0 && len(a.resStack) == 1 && a.cur != nil && a.cur.Type.Results != nil {
+			i := 0
+			for _, f := range a.cur.Type.Results.List {
+				for _, n := range f.Names {
+					if o := a.info.Defs[n]; o != nil && refLike(o.Type()) {
+						a.add(fmt.Sprintf("%s#%d", prefix, i), a.cells[a.varID(o)])
+					}
+					i++
+				}
+			}
+		}
+	case *ast.DeclStmt:
+		if gd, ok := s.Decl.(*ast.GenDecl); ok {
+			for _, sp := range gd.Specs {
+				vs, ok := sp.(*ast.ValueSpec)
+				if !ok {
+					continue
+				}
+				if len(vs.Values) == len(vs.Names) {
+					for i, n := range vs.Names {
+						a.assign(n, vs.Values[i], nil, true)
+					}
+				} else if len(vs.Values) == 1 {
+					var rs []oset
+					if c, ok := unparen(vs.Values[0]).(*ast.CallExpr); ok {
+						rs = a.call(c)
+					} else {
+						rs = []oset{a.val(vs.Values[0])}
+					}
+					for i, n := range vs.Names {
+						var g oset
+						if i < len(rs) {
+							g = rs[i]
+						}
+						a.assign(n, nil, g, true)
+					}
+				} else if a.collect {
+					for _, n := range vs.Names {
+						if o := a.info.Defs[n]; o != nil && (refLike(o.Type()) || a.addrOfV[a.varID(o)]) {
+							a.recordBinding(a.curName(), n.Name, "define", o.Type(), a.curName(), "", "zero", nil)
+						}
+					}
+				}
+			}
+		}
+	case *ast.IfStmt:
+		a.stmt(s.Init)
+		a.val(s.Cond)
+		a.stmt(s.Body)
+		a.stmt(s.Else)
+	case *ast.ForStmt:
+		a.stmt(s.Init)
+		a.val(s.Cond)
+		a.stmt(s.Post)
+		a.stmt(s.Body)
+	case *ast.RangeStmt:
+		cs := a.containers(s.X)
+		xt := a.typeOf(s.X)
+		var elems oset
+		if xt != nil {
+			if _, isArr := xt.Underlying().(*types.Array); isArr {
+				elems = a.val(s.X)
+			} else {
+				elems = a.content(cs)
+			}
+		} else {
+			elems = single(oUnknown)
+		}
+		for _, kv := range []ast.Expr{s.Key, s.Value} {
+			if kv == nil {
+				continue
+			}
+			t := a.typeOf(kv)
+			if t == nil || refLike(t) {
+				a.assign(kv, nil, elems, s.Tok == token.DEFINE)
+			} else if hasRef(t) {
+				var blobs oset
+				for o := range cs {
+					if isBlob(o) {
+						blobs = union(blobs, single(o))
+					}
+				}
+				a.taint(t, blobs, 0)
+			}
+			if id, isID := unparen(kv).(*ast.Ident); s.Tok == token.ASSIGN && !(isID && id.Name == "_") {
+				a.recordWrite("range", kv, a.show(kv), a.locsQuiet(kv))
+			}
+		}
+		a.stmt(s.Body)
+	case *ast.SwitchStmt:
+		a.stmt(s.Init)
+		a.val(s.Tag)
+		a.stmt(s.Body)
+	case *ast.TypeSwitchStmt:
+		a.stmt(s.Init)
+		var x ast.Expr
+		switch g := s.Assign.(type) {
+		case *ast.ExprStmt:
+			x = g.X
+		case *ast.AssignStmt:
+			if len(g.Rhs) == 1 {
+				x = g.Rhs[0]
+			}
+		}
+		var v oset
+		if ta, ok := unparen(x).(*ast.TypeAssertExpr); ok {
+			v = a.val(ta.X)
+		}
+		for _, c := range s.Body.List {
+			if cc, ok := c.(*ast.CaseClause); ok {
+				if o := a.info.Implicits[cc]; o != nil {
+					a.add(a.varID(o), v)
+				}
+			}
+		}
+		a.stmt(s.Body)
+	case *ast.CaseClause:
+		for _, x := range s.List {
+			a.val(x)
+		}
+		for _, x := range s.Body {
+			a.stmt(x)
+		}
+	case *ast.SelectStmt:
+		a.stmt(s.Body)
+	case *ast.CommClause:
+		a.stmt(s.Comm)
+		for _, x := range s.Body {
+			a.stmt(x)
+		}
+	case *ast.LabeledStmt:
+		a.stmt(s.Stmt)
+	}
+}
+
+// locs() of an expression that has been evaluated already: no fact is recorded twice
+func (a *pta) locsQuiet(e ast.Expr) oset {
+	c := a.collect
+	a.collect = false
+	r := a.locs(e)
+	a.collect = c
+	return r
+}
+
+func (a *pta) walkAll() {
+	for _, d := range a.decls {
+		if d.Body == nil {
+			continue
+		}
+		a.cur = d
+		a.resStack = []string{"R:" + a.fnName[d]}
+		a.stmt(d.Body)
+	}
+	a.cur = nil
+}
+
+// entry points: exported functions and methods can be called by anybody
+func (a *pta) seedEntries() {
+	for _, d := range a.decls {
+		if !d.Name.IsExported() {
+			continue
+		}
+		if rn := recvName(d); rn != "" && !ast.IsExported(rn) {
+			continue // methods of unexported types: receiver and parameters only from the call sites seen
+		}
+		name := a.fnName[d]
+		if d.Recv != nil {
+			for _, f := range d.Recv.List {
+				rt := a.typeOf(f.Type)
+				if !refLike(rt) {
+					continue
+				}
+				s := single(oCaller)
+				if a.isTreeType(deref(rt)) {
+					s = single(oTree)
+				}
+				for _, n := range f.Names {
+					if o := a.info.Defs[n]; o != nil {
+						a.add(a.varID(o), s)
+						if a.collect {
+							a.recordBinding(name, n.Name, "receiver", rt, "(caller)", "", "entry", classes(s))
+						}
+					}
+				}
+			}
+		}
+		for _, f := range d.Type.Params.List {
+			for _, n := range f.Names {
+				o := a.info.Defs[n]
+				if o == nil {
+					continue
+				}
+				if refLike(o.Type()) {
+					a.add(a.varID(o), single(oCaller))
+					if a.collect {
+						a.recordBinding(name, n.Name, "param", o.Type(), "(caller)", "", "entry", []string{"caller"})
+					}
+				} else if a.collect && a.addrOfV[a.varID(o)] {
+					a.recordBinding(name, n.Name, "param", o.Type(), "(caller)", "", "by-value-copy", []string{})
+				} else if hasRef(o.Type()) {
+					a.taint(o.Type(), single(oCaller), 0)
+				}
+			}
+		}
+	}
+}
+
+// one-line, bounded rendering of an expression for the tables
+func (a *pta) show(n ast.Node) string {
+	s := strings.Join(strings.Fields(src(a.pk, n)), " ")
+	if len(s) > 90 {
+		s = s[:87] + "..."
+	}
+	return s
+}
+
+func leanList(s []string) string { return "[" + strings.Join(quoteAll(s), ", ") + "]" }
 
 func genWrites() *leanFile {
 	l := &leanFile{name: "Writes"}
 	l.p("/- REGENERATED by factgen from /repo on every run. Do not edit.")
-	l.p("   Writes performed by the functions on the quadtree's read-only query path, with the root of")
-	l.p("   each left-hand side classified (local / visitor / tree / other), and how each per-call")
-	l.p("   `closestBound` / `bound` pointer is initialised. -/")
+	l.p("   Package quadtree is type-checked and a whole-package points-to analysis classifies the memory")
+	l.p("   every write on the read-only query path may land in.  Classes:")
+	l.p("     local    a variable of the running function")
+	l.p("     percall  memory allocated during the call (make, new, composite literal, append growth)")
+	l.p("              or a local variable of a caller on the same query path (reached through a pointer)")
+	l.p("     caller   a buffer supplied by the caller of the exported method (per goroutine by contract)")
+	l.p("     tree     the Quadtree struct, its nodes, anything loaded from them; any *node / *Quadtree")
+	l.p("     global   package-level state;   unknown  anything that comes from outside the package")
+	l.p("   An EMPTY class list means the analysis found nothing the destination could designate. -/")
 	l.p("namespace Generated.Writes")
+	l.p("")
+	l.p("/-- one write: `kind` is assign | incdec | range | send | recv | go | append | copy | clear | delete | close |")
+	l.p("    extcall:<callee> (a reference argument handed to code outside the package); `lhs` the written")
+	l.p("    expression (for calls: the destination argument); `roots` the classes of the memory it may")
+	l.p("    designate, `objs` the abstract objects; `rootVar` the identifier the path starts from and `via`")
+	l.p("    the reference-typed struct fields (Type.field) whose value is dereferenced on the way -/")
 	l.p("structure W where")
 	l.p("  fn : String")
 	l.p("  lhs : String")
-	l.p("  root : String")
+	l.p("  kind : String")
+	l.p("  roots : List String")
+	l.p("  rootVar : String")
+	l.p("  via : List String")
+	l.p("  objs : List String")
 	l.p("deriving Repr, DecidableEq")
 	l.p("")
-	var facts []writeFact
-	var boundInits []string // "fn: field <- &x where x is <kind>"
-	missing := []string{}
-	queryFuncs := queryReach()
-	l.p("def reachable : List String := [%s]", strings.Join(quoteAll(queryFuncs), ", "))
+	l.p("/-- how a local variable / parameter / receiver gets a value: kind is define | assign | param |")
+	l.p("    receiver, `frm` the function containing the statement or call site (\"(caller)\" at an exported")
+	l.p("    entry point), `how` the shape of the value expression (make, new, complit, addr-of-local,")
+	l.p("    local, param, receiver, field, element, slice-of-…, call:…, nil, zero, entry, call-site) -/")
+	l.p("structure B where")
+	l.p("  fn : String")
+	l.p("  var : String")
+	l.p("  kind : String")
+	l.p("  typ : String")
+	l.p("  frm : String")
+	l.p("  value : String")
+	l.p("  how : String")
+	l.p("  roots : List String")
+	l.p("deriving Repr, DecidableEq")
 	l.p("")
-	for _, q := range queryFuncs {
-		recv, name := "", q
-		if i := strings.Index(q, "."); i >= 0 {
-			recv, name = q[:i], q[i+1:]
+	l.p("/-- how a reference-typed struct field is initialised (composite literal) or assigned -/")
+	l.p("structure FI where")
+	l.p("  fn : String")
+	l.p("  owner : String   -- the struct type")
+	l.p("  field : String   -- Type.field")
+	l.p("  typ : String")
+	l.p("  value : String")
+	l.p("  how : String")
+	l.p("  roots : List String")
+	l.p("deriving Repr, DecidableEq")
+	l.p("")
+
+	qp := pkgs["quadtree"]
+	var errs []string
+	a := &pta{pk: qp, cells: map[string]oset{}, fnOf: map[*types.Func]*ast.FuncDecl{}, fnName: map[*ast.FuncDecl]string{},
+		fieldID: map[*types.Var]string{}, varIDs: map[types.Object]string{}, varUsed: map[string]bool{},
+		siteIDs: map[token.Pos]string{}, siteTyp: map[string]types.Type{}, siteCnt: map[string]int{}, calls: map[string]map[string]bool{},
+		addrOfV: map[string]bool{}, seen: map[string]bool{}}
+	missing := []string{}
+	if qp == nil {
+		errs = append(errs, "package quadtree not found")
+		missing = append(missing, queryRoots...)
+	} else {
+		a.info = &types.Info{Types: map[ast.Expr]types.TypeAndValue{}, Defs: map[*ast.Ident]types.Object{}, Uses: map[*ast.Ident]types.Object{},
+			Selections: map[*ast.SelectorExpr]*types.Selection{}, Implicits: map[ast.Node]types.Object{}}
+		imp := &orbImporter{std: importer.ForCompiler(token.NewFileSet(), "source", nil), done: map[string]*types.Package{}, errs: &errs}
+		a.tpkg, _ = imp.check(orbPath+"/quadtree", qp, a.info)
+		names := []string{}
+		for n := range qp.files {
+			names = append(names, n)
 		}
-		pk, fd := findFunc("quadtree", recv, name)
-		if fd == nil {
-			missing = append(missing, q)
-			continue
-		}
-		// classify names
-		kind := map[string]string{}
-		if fd.Recv != nil && len(fd.Recv.List) > 0 && len(fd.Recv.List[0].Names) > 0 {
-			rn, _ := typeName(fd.Recv.List[0].Type)
-			if perCallRecv[rn] {
-				kind[fd.Recv.List[0].Names[0].Name] = "visitor"
-			} else {
-				kind[fd.Recv.List[0].Names[0].Name] = "tree"
-			}
-		}
-		for _, p := range fd.Type.Params.List {
-			tn, isPtr := typeName(p.Type)
-			for _, n := range p.Names {
-				switch {
-				case tn == "node" && isPtr:
-					kind[n.Name] = "tree"
-				case isPtr:
-					kind[n.Name] = "other"
-				default:
-					if _, isSlice := p.Type.(*ast.ArrayType); isSlice {
-						kind[n.Name] = "other" // caller-supplied buffer: per goroutine by contract
-					} else {
-						kind[n.Name] = "local"
+		sort.Strings(names)
+		for _, n := range names {
+			for _, d := range qp.files[n].Decls {
+				if fd, ok := d.(*ast.FuncDecl); ok {
+					a.decls = append(a.decls, fd)
+					q := fd.Name.Name
+					if r := recvName(fd); r != "" {
+						q = r + "." + q
+					}
+					a.fnName[fd] = q
+					if f, ok := a.info.Defs[fd.Name].(*types.Func); ok {
+						a.fnOf[f] = fd
 					}
 				}
 			}
 		}
-		if fd.Type.Results != nil {
-			for _, p := range fd.Type.Results.List {
-				for _, n := range p.Names {
-					kind[n.Name] = "local"
-				}
-			}
-		}
-		// locals: := and var, with what they are initialised from
-		localInit := map[string]string{}
-		ast.Inspect(fd.Body, func(n ast.Node) bool {
-			switch st := n.(type) {
-			case *ast.AssignStmt:
-				if st.Tok == token.DEFINE {
-					for i, lh := range st.Lhs {
-						if id, ok := lh.(*ast.Ident); ok {
-							if _, seen := kind[id.Name]; !seen {
-								kind[id.Name] = "local"
-							}
-							if i < len(st.Rhs) {
-								localInit[id.Name] = src(pk, st.Rhs[i])
-							}
-						}
-					}
-				}
-			case *ast.DeclStmt:
-				if gd, ok := st.Decl.(*ast.GenDecl); ok {
-					for _, sp := range gd.Specs {
-						if vs, ok := sp.(*ast.ValueSpec); ok {
-							for _, id := range vs.Names {
-								kind[id.Name] = "local"
-							}
-						}
-					}
-				}
-			case *ast.RangeStmt:
-				for _, e := range []ast.Expr{st.Key, st.Value} {
-					if id, ok := e.(*ast.Ident); ok && st.Tok == token.DEFINE {
-						kind[id.Name] = "local"
-					}
-				}
-			}
-			return true
-		})
-		classify := func(e ast.Expr) string {
-			id := rootIdent(e)
-			if id == nil {
-				return "other"
-			}
-			if k, ok := kind[id.Name]; ok {
-				// a local that aliases tree memory (pointer taken from the tree) is tree memory
-				if k == "local" {
-					if init, ok := localInit[id.Name]; ok && (strings.HasPrefix(init, "&q.") || strings.HasPrefix(init, "q.root") || strings.Contains(init, ".Children[")) {
-						return "tree"
-					}
-				}
-				return k
-			}
-			return "other"
-		}
-		ast.Inspect(fd.Body, func(n ast.Node) bool {
-			switch st := n.(type) {
-			case *ast.AssignStmt:
-				if st.Tok == token.DEFINE {
-					return true
-				}
-				for _, lh := range st.Lhs {
-					if id, ok := lh.(*ast.Ident); ok && id.Name == "_" {
-						continue
-					}
-					facts = append(facts, writeFact{q, src(pk, lh), classify(lh)})
-				}
-			case *ast.IncDecStmt:
-				facts = append(facts, writeFact{q, src(pk, st.X), classify(st.X)})
-			case *ast.SendStmt: // a channel send publishes memory to another goroutine
-				facts = append(facts, writeFact{q, src(pk, st.Chan) + " <-", "send:" + classify(st.Chan)})
-			case *ast.KeyValueExpr:
-				if id, ok := st.Key.(*ast.Ident); ok && (id.Name == "closestBound" || id.Name == "bound") {
-					v := src(pk, st.Value)
-					what := "other"
-					if u, ok := st.Value.(*ast.UnaryExpr); ok && u.Op == token.AND {
-						if x, ok := u.X.(*ast.Ident); ok {
-							switch {
-							case localInit[x.Name] == "q.bound":
-								what = "local-copy-of-q.bound"
-							case kind[x.Name] == "local":
-								what = "local"
-							default:
-								what = kind[x.Name]
-							}
-						} else {
-							what = "address-of-" + classify(u.X)
-						}
-					}
-					boundInits = append(boundInits, fmt.Sprintf("⟨%q, %q, %q, %q⟩", q, id.Name, v, what))
-				}
-			}
-			return true
-		})
-	}
-	// package-level variables of package quadtree referenced by the query path
-	pkgVars := map[string]bool{}
-	if qp := pkgs["quadtree"]; qp != nil {
-		for _, f := range qp.files {
-			for _, d := range f.Decls {
-				if gd, ok := d.(*ast.GenDecl); ok && gd.Tok == token.VAR {
-					for _, sp := range gd.Specs {
-						for _, n := range sp.(*ast.ValueSpec).Names {
-							pkgVars[n.Name] = true
+		if a.tpkg != nil {
+			sc := a.tpkg.Scope()
+			for _, n := range sc.Names() {
+				if tn, ok := sc.Lookup(n).(*types.TypeName); ok {
+					a.named = append(a.named, tn)
+					if st, ok := tn.Type().Underlying().(*types.Struct); ok {
+						for i := 0; i < st.NumFields(); i++ {
+							a.fieldID[st.Field(i)] = tn.Name() + "." + st.Field(i).Name()
 						}
 					}
 				}
 			}
 		}
 	}
-	var globals []string
-	for _, q := range queryFuncs {
-		recv, name := "", q
-		if i := strings.Index(q, "."); i >= 0 {
-			recv, name = q[:i], q[i+1:]
+
+	byName := map[string]*ast.FuncDecl{}
+	for _, d := range a.decls {
+		byName[a.fnName[d]] = d
+	}
+	reach := map[string]bool{}
+	if a.tpkg != nil {
+		// fixpoint
+		for round := 0; round < 100; round++ {
+			a.changed = false
+			a.seedEntries()
+			a.walkAll()
+			if !a.changed {
+				break
+			}
 		}
-		_, fd := findFunc("quadtree", recv, name)
-		if fd == nil || fd.Body == nil {
-			continue
+		// reachability: every function of the package referenced (called, dispatched to through a
+		// package interface, or taken as a value) from a function already reachable, plus — as before —
+		// every function of the package that shares its bare NAME with something called
+		bare := map[string][]string{}
+		for _, d := range a.decls {
+			bare[d.Name.Name] = append(bare[d.Name.Name], a.fnName[d])
 		}
-		seen := map[string]bool{}
-		ast.Inspect(fd.Body, func(n ast.Node) bool {
-			if sel, ok := n.(*ast.SelectorExpr); ok { // x.f : only x can be a package variable
-				ast.Inspect(sel.X, func(m ast.Node) bool {
-					if id, ok := m.(*ast.Ident); ok && pkgVars[id.Name] && !seen[id.Name] {
-						seen[id.Name] = true
-						globals = append(globals, fmt.Sprintf("(%q, %q)", q, id.Name))
+		todo := append([]string(nil), queryRoots...)
+		for len(todo) > 0 {
+			q := todo[len(todo)-1]
+			todo = todo[:len(todo)-1]
+			if reach[q] {
+				continue
+			}
+			d := byName[q]
+			if d == nil {
+				missing = append(missing, q)
+				continue
+			}
+			reach[q] = true
+			for c := range a.calls[q] {
+				todo = append(todo, c)
+			}
+			if d.Body != nil {
+				ast.Inspect(d.Body, func(n ast.Node) bool {
+					c, ok := n.(*ast.CallExpr)
+					if !ok {
+						return true
+					}
+					switch f := c.Fun.(type) {
+					case *ast.Ident:
+						todo = append(todo, bare[f.Name]...)
+					case *ast.SelectorExpr:
+						if x, ok := f.X.(*ast.Ident); ok {
+							if _, isPkg := a.info.Uses[x].(*types.PkgName); isPkg {
+								return true
+							}
+						}
+						todo = append(todo, bare[f.Sel.Name]...)
 					}
 					return true
 				})
-				return false
 			}
-			if id, ok := n.(*ast.Ident); ok && pkgVars[id.Name] && !seen[id.Name] {
-				seen[id.Name] = true
-				globals = append(globals, fmt.Sprintf("(%q, %q)", q, id.Name))
+		}
+		// collect the facts of the reachable functions
+		a.collect = true
+		a.seedEntries()
+		for _, d := range a.decls {
+			if d.Body == nil {
+				continue
 			}
-			return true
-		})
+			a.cur = d
+			a.resStack = []string{"R:" + a.fnName[d]}
+			nW, nC := len(a.writes), len(a.callbacks)
+			a.stmt(d.Body)
+			if !reach[a.fnName[d]] { // writes / callbacks only of the query path; bindings and field stores of the whole package
+				a.writes, a.callbacks = a.writes[:nW], a.callbacks[:nC]
+			}
+		}
+		a.cur = nil
+		if a.changed {
+			errs = append(errs, "points-to solution not stable")
+		}
+	} else if qp != nil {
+		errs = append(errs, "type check of package quadtree produced no package")
 	}
-	l.p("/-- package-level variables referenced from the query path: (function, variable) -/")
-	l.p("def globalsUsed : List (String × String) := [%s]", strings.Join(globals, ", "))
-	l.p("")
+	queryFuncs := []string{}
+	for q := range reach {
+		queryFuncs = append(queryFuncs, q)
+	}
+	sort.Strings(queryFuncs)
+	sort.Strings(missing)
 	for _, m := range missing {
 		anchorLost("quadtree." + m)
 	}
-	sort.SliceStable(facts, func(i, j int) bool { return facts[i].fn < facts[j].fn })
+
+	l.p("def reachable : List String := %s", leanList(queryFuncs))
+	l.p("")
+	l.p("/-- errors of the type checker on package quadtree (the analysis needs every expression typed) -/")
+	l.p("def typeErrors : List String := %s", leanList(errs))
+	l.p("")
+
+	// package-level variables of package quadtree referenced by the query path
+	var globals []string
+	if a.tpkg != nil {
+		for _, q := range queryFuncs {
+			d := byName[q]
+			if d == nil || d.Body == nil {
+				continue
+			}
+			seen := map[string]bool{}
+			ast.Inspect(d.Body, func(n ast.Node) bool {
+				if id, ok := n.(*ast.Ident); ok {
+					if v, ok := a.info.Uses[id].(*types.Var); ok && !v.IsField() && v.Pkg() != nil && v.Parent() == v.Pkg().Scope() && !seen[v.Pkg().Name()+"."+v.Name()] {
+						seen[v.Pkg().Name()+"."+v.Name()] = true
+						name := v.Name()
+						if v.Pkg() != a.tpkg {
+							name = v.Pkg().Name() + "." + name
+						}
+						globals = append(globals, fmt.Sprintf("(%q, %q)", q, name))
+					}
+				}
+				return true
+			})
+		}
+	}
+	l.p("/-- package-level variables (of any package) referenced from the query path: (function, variable) -/")
+	l.p("def globalsUsed : List (String × String) := [%s]", strings.Join(globals, ", "))
+	l.p("")
+
+	sort.SliceStable(a.writes, func(i, j int) bool { return a.writes[i].fn < a.writes[j].fn })
 	l.p("def writes : List W := [")
-	for i, f := range facts {
+	for i, f := range a.writes {
 		comma := ","
-		if i == len(facts)-1 {
+		if i == len(a.writes)-1 {
 			comma = ""
 		}
-		l.p("  ⟨%q, %q, %q⟩%s", f.fn, f.lhs, f.root, comma)
+		l.p("  ⟨%q, %q, %q, %s, %q, %s, %s⟩%s", f.fn, f.lhs, f.kind, leanList(f.roots), f.rootVar, leanList(f.via), leanList(f.objs), comma)
 	}
 	l.p("]")
 	l.p("")
+	sort.SliceStable(a.bindings, func(i, j int) bool {
+		if a.bindings[i].fn != a.bindings[j].fn {
+			return a.bindings[i].fn < a.bindings[j].fn
+		}
+		return a.bindings[i].v < a.bindings[j].v
+	})
+	l.p("/-- every way a reference-typed (or address-taken) variable of a function of the package gets a value -/")
+	l.p("def bindings : List B := [")
+	for i, b := range a.bindings {
+		comma := ","
+		if i == len(a.bindings)-1 {
+			comma = ""
+		}
+		l.p("  ⟨%q, %q, %q, %q, %q, %q, %q, %s⟩%s", b.fn, b.v, b.kind, b.typ, b.from, b.value, b.how, leanList(b.roots), comma)
+	}
+	l.p("]")
+	l.p("")
+	sort.SliceStable(a.fieldInit, func(i, j int) bool { return a.fieldInit[i].field < a.fieldInit[j].field })
+	l.p("/-- every store to a reference-typed struct field in the package (composite literals and assignments) -/")
+	l.p("def fieldInits : List FI := [")
+	for i, f := range a.fieldInit {
+		comma := ","
+		if i == len(a.fieldInit)-1 {
+			comma = ""
+		}
+		owner := f.field
+		if k := strings.LastIndex(owner, "."); k >= 0 {
+			owner = owner[:k]
+		}
+		l.p("  ⟨%q, %q, %q, %q, %q, %q, %s⟩%s", f.fn, owner, f.field, f.typ, f.value, f.how, leanList(f.roots), comma)
+	}
+	l.p("]")
+	l.p("")
+	l.p("/-- calls into caller-supplied code on the query path: (function, callee expression, kind) -/")
+	l.p("def callbacks : List (String × String × String) := [")
+	for i, c := range a.callbacks {
+		comma := ","
+		if i == len(a.callbacks)-1 {
+			comma = ""
+		}
+		l.p("  (%q, %q, %q)%s", c.fn, c.callee, c.via, comma)
+	}
+	l.p("]")
+	l.p("")
+
+	// the pruning-bound pointers of the per-call visitors
+	a.collect = false
 	l.p("/-- how the pruning-bound pointers of the per-call visitors are initialised -/")
 	l.p("structure BI where")
 	l.p("  fn : String")
@@ -344,6 +2251,56 @@ func genWrites() *leanFile {
 	l.p("  value : String")
 	l.p("  kind : String   -- local-copy-of-q.bound | local | tree | address-of-tree | other …")
 	l.p("deriving Repr, DecidableEq")
+	var boundInits []string
+	if a.tpkg != nil {
+		for _, q := range queryFuncs {
+			d := byName[q]
+			if d == nil || d.Body == nil {
+				continue
+			}
+			// the single initialiser of each local
+			inits := map[types.Object][]string{}
+			ast.Inspect(d.Body, func(n ast.Node) bool {
+				if st, ok := n.(*ast.AssignStmt); ok && len(st.Lhs) == len(st.Rhs) {
+					for i, lh := range st.Lhs {
+						if id, ok := lh.(*ast.Ident); ok {
+							if o := a.info.ObjectOf(id); o != nil {
+								inits[o] = append(inits[o], src(qp, st.Rhs[i]))
+							}
+						}
+					}
+				}
+				return true
+			})
+			a.cur = d
+			ast.Inspect(d.Body, func(n ast.Node) bool {
+				kv, ok := n.(*ast.KeyValueExpr)
+				if !ok {
+					return true
+				}
+				id, ok := kv.Key.(*ast.Ident)
+				if !ok || (id.Name != "closestBound" && id.Name != "bound") {
+					return true
+				}
+				what := strings.Join(classes(a.val(kv.Value)), "+")
+				if u, ok := kv.Value.(*ast.UnaryExpr); ok && u.Op == token.AND {
+					if x, ok := u.X.(*ast.Ident); ok {
+						if o := a.info.ObjectOf(x); o != nil && a.isLocalVar(o) && !hasRef(o.Type()) {
+							what = "local"
+							if in := inits[o]; len(in) == 1 && in[0] == "q.bound" {
+								what = "local-copy-of-q.bound"
+							}
+						}
+					} else {
+						what = "address-of-" + strings.Join(classes(a.locs(u.X)), "+")
+					}
+				}
+				boundInits = append(boundInits, fmt.Sprintf("⟨%q, %q, %q, %q⟩", q, id.Name, src(qp, kv.Value), what))
+				return true
+			})
+			a.cur = nil
+		}
+	}
 	l.p("def boundInits : List BI := [")
 	for i, b := range boundInits {
 		comma := ","
@@ -354,15 +2311,7 @@ func genWrites() *leanFile {
 	}
 	l.p("]")
 	l.p("")
-	l.p("def missingFuncs : List String := [%s]", strings.Join(quoteAll(missing), ", "))
+	l.p("def missingFuncs : List String := %s", leanList(missing))
 	l.p("end Generated.Writes")
 	return l
-}
-
-func quoteAll(s []string) []string {
-	o := make([]string, len(s))
-	for i, x := range s {
-		o[i] = fmt.Sprintf("%q", x)
-	}
-	return o
 }
